@@ -814,8 +814,13 @@ func (w *world) evExpire(s *subject) {
 	e := w.m.cur[s.h.DID]
 	past := time.Now().Add(-time.Hour).Unix()
 	res := w.sdb.Exec("UPDATE discovery_presentation SET presentation_expiration = ? WHERE service_id = ? AND presentation_id = ?", past, w.svc, e.jti)
-	if res.Error != nil || res.RowsAffected != 1 {
-		w.r.Fatalf("ageing %s: %v rows=%d", short(e.jti), res.Error, res.RowsAffected)
+	if res.Error != nil {
+		w.r.Fatalf("ageing %s: %v", short(e.jti), res.Error)
+	}
+	if res.RowsAffected != 1 {
+		// the server does not hold the entry the model holds (reported by checkServer as entry-missing): nothing to age
+		w.note("expire %s: no such row on the server", short(e.jti))
+		return
 	}
 	e.aged = true
 	w.ageOnClient()
@@ -1224,6 +1229,16 @@ func (w *world) evDefect(d defect) {
 	w.r.Case("defective/"+d.class+"/"+strconv.Itoa(len(w.m.cur)), true)
 	if resp.Status/100 == 2 {
 		w.violation("C16/register/defective-accepted/"+d.class, fmt.Sprintf("defective registration (%s) accepted: %s", d.class, resp), map[string]any{"presentation": body})
+		// reported; let the model follow the server so that one defect is not reported again by every later comparison
+		if tok, isJWT := body.(string); isJWT && jti != "" && d.class != "exact-duplicate" {
+			if hdr, claims, ok := jwtParts(tok); ok {
+				kid, _ := hdr["kid"].(string)
+				vp, _ := claims["vp"].(map[string]any)
+				e := w.m.accept(strings.SplitN(kid, "#", 2)[0], jti, strings.Contains(fmt.Sprint(vp["type"]), "RetractedVerifiablePresentation"))
+				w.m.pending = append(w.m.pending, []*entry{e})
+			}
+			return
+		}
 	} else if resp.Status/100 == 5 {
 		w.r.Unspecified("refused-with-5xx/" + d.class)
 	}
